@@ -151,14 +151,16 @@ def runDict (c : Case) (m : DictModel) (emit : Nat → String → IO Unit) : IO 
       else emit k s!"XR {strOrNull (Spec.extract S r)}"
     | ["tab"] =>
       if !m.hasTable then emit k "T -"
-      else if m.ordered then
-        match m.tableScan with
-        | some none => emit k "T MODEL-FAULT"
-        | some (some l) => if l == S then emit k s!"T {joinStrs S}" else emit k s!"T MODEL-DIFFERS-FROM-SPEC {joinStrs l}"
-        | none => emit k s!"T {joinStrs S}"
-      else match (List.range m.numElements).mapM (fun i => m.extract (i + 1)) with
-        | some l => emit k s!"T {joinStrs (l.filterMap id)}"
-        | none => emit k "T ?"
+      else
+        -- what the scan must yield: the sorted input, or `extract(1) … extract(n)` for kinds whose IDs are not ranks
+        let expected : Option (List Str) :=
+          if m.ordered then some S
+          else ((List.range m.numElements).mapM (fun i => m.extract (i + 1))).map (·.filterMap id)
+        match m.tableScan, expected with
+        | some none, _ => emit k "T MODEL-FAULT"
+        | some (some l), some e => if l == e then emit k s!"T {joinStrs e}" else emit k s!"T MODEL-DIFFERS-FROM-SPEC {joinStrs l}"
+        | _, some e => emit k s!"T {joinStrs e}"
+        | _, none => emit k "T ?"
     | ["tabs"] => emit k s!"T {if m.hasTable then joinStrs (sortStrs S) else "-"}"
     | ["tabh"] =>
       if !m.hasTable then emit k s!"TH 0 {hex16 fnvInit}"
